@@ -68,6 +68,8 @@ MANIFESTS = {
     "requirements-crlf": {"requirements.txt": "requests==2.31.0\r\nflask>=2.0\r\n"},
     "pyproject": {"pyproject.toml": '[project]\nname = "demo"\nversion = "0.1"\ndependencies = [\n    "requests",\n    "flask>=2.0",\n]\n'},
     "setuppy": {"setup.py": 'from setuptools import setup\n\nsetup(\n    name="demo",\n    install_requires=[\n        "requests",\n        "flask>=2.0",\n    ],\n)\n'},
+    # setup.py is a manifest AND a Python source: it holds a trigger of its own (set literal) for a later codemod
+    "setuppy-trigger": {"setup.py": 'from setuptools import setup\n\nEXTRAS = set(["dev", "test"])\n\nsetup(\n    name="demo",\n    install_requires=[\n        "requests",\n    ],\n)\n'},
     "setupcfg": {"setup.cfg": "[metadata]\nname = demo\n\n[options]\ninstall_requires =\n    requests\n    flask>=2.0\n"},
     "pyproject+requirements": {
         "pyproject.toml": '[project]\nname = "demo"\nversion = "0.1"\ndependencies = [\n    "requests",\n]\n',
